@@ -71,7 +71,27 @@ JOBSETS['mutmsg'] = {
     'wall': {'quick': 1800, 'thorough': 9000},
 }
 
+def _depth_jobs(tier):
+    ds_known = [1, 2, 48, 100, 341, 342, 511, 512, 1023, 1024, 2000] if tier == 'quick' else [1, 2, 3, 10, 47, 48, 49, 100, 341, 342, 500, 511, 512, 513, 1000, 1023, 1024, 1025, 2000, 5000]
+    ds_unk = [1, 2, 31, 32, 33, 48, 64, 65, 66, 100, 2000]
+    jobs = []
+    for via in range(5):
+        for d in ds_known:
+            jobs.append({'id': 'depth/known/via%d/d%d' % (via, d), 'entry': FPKG + '.VerifDepthKnown', 'setup': FPKG + '.VerifSetupDepth', 'reach': ['end'],
+                         'cfg': {'params': {'d': d, 'via': via}, 'max_depth': 200000, 'step_limit': 50000000}, 'tags': ['depth']})
+        for d in ds_unk:
+            jobs.append({'id': 'depth/unknown/via%d/d%d' % (via, d), 'entry': FPKG + '.VerifDepthUnknown', 'setup': FPKG + '.VerifSetupDepth', 'reach': ['end'],
+                         'cfg': {'params': {'d': d, 'via': via}, 'max_depth': 200000, 'step_limit': 50000000}, 'tags': ['depth']})
+    return jobs
+
+JOBSETS['depth'] = {
+    'jobs': {t: _depth_jobs(t) + [{'id': 'depth/budget/via%d/k%d' % (v, k), 'entry': RPKG + '.VerifDepthBudget', 'reach': ['end', 'zero', 'enough', 'short'], 'cfg': {'params': {'k': k, 'via': v}}, 'tags': ['depth']} for v in (0, 1) for k in ((1, 2, 4) if t == 'quick' else (1, 2, 3, 4, 6, 8))] for t in ('quick', 'thorough')},
+    'cfg': {'quick': {'timeout_s': 300}, 'thorough': {'timeout_s': 900}},
+    'wall': {'quick': 1200, 'thorough': 3600},
+}
+
 PROPS = {
+    'C15': {'jobsets': ['depth'], 'phases': ['decode'], 'translator_validation': 4},
     'C13': {'jobsets': ['invalid'], 'phases': [''], 'translator_validation': 4},
     'C07': {'jobsets': ['hist', 'dec2'], 'phases': ['pred', 'decode'], 'also_labels': r'^(C03|C09|C05|C06|C01)', 'job_filter': r'^(hist|dec2|decmsg)/'},
     'C06': {'jobsets': ['unit', 'dec2', 'decmsg', 'codec'], 'phases': [], 'job_filter': r'unit/(span|decoder)|^decmsg/|^dec2/|^codec/', 'also_labels': r'^M-(scan|align)'},
